@@ -1,7 +1,7 @@
 """C06 - a client's write changes exactly the addressed element, to the value sent."""
 from __future__ import annotations
 
-from ..absint import Builtin, Cls, Const, Dct, Fn, Interp, Lst, Obj, Term, Tup, explore, is_call, mentions, run_method, show, subterms
+from ..absint import Frame, Builtin, Cls, Const, Dct, Fn, Interp, Lst, Obj, Term, Tup, explore, is_call, mentions, run_method, show, subterms
 from ..model import Undecided
 from .common import lower_first
 from .driverworld import IE, IV
@@ -106,10 +106,15 @@ def rule_submit(ctx):
     for kind in ("Number", "Switch", "Text", "BLOB"):
         vcls = p.cls(f"indi.client.vectors.{kind}Vector")
         ecls = p.cls(f"indi.client.elements.{kind}")
-        for pending in ((True, False), (False, True), (True, True), (False, False)):
+        # besides opaque pending values, the smallest member of each value domain: zero, the empty text, an empty BLOB
+        # (a pending value is pending whatever its truth value; both switch states are non-empty texts)
+        falsy = {"Number": [("0", lambda it: Const(0)), ("0.0", lambda it: Const(0.0))], "Text": [("''", lambda it: Const(""))], "Switch": [],
+                 "BLOB": [("empty BLOB", lambda it: it.apply(Cls(p.cls("indi.device.values.BLOB")), [Const(b""), Const(".bin")], {}, [], None, Frame(None, p.cls("indi.device.values.BLOB").module, {}), False))]}[kind]
+        cases = [(pend_, None, None) for pend_ in ((True, False), (False, True), (True, True), (False, False))] + [((True, False), lab_, mk_) for lab_, mk_ in falsy] + [((True, True), lab_, mk_) for lab_, mk_ in falsy]
+        for pending, flabel, fmk in cases:
             n += 1
 
-            def run(it: Interp):
+            def run(it: Interp, pending=pending, fmk=fmk):
                 # the mirror is produced by the real client from two definitions (a second property V2 and a second
                 # device E exist so that a wrongly addressed submit has something to hit)
                 cl, vecs, els_ = build_mirror(it, p, kind)
@@ -119,6 +124,15 @@ def rule_submit(ctx):
                     e.label = f"cel:{nm}"
                     if pend:
                         nv = Obj(None, {"binary_base64": Obj(None, label=f"<b64:{nm}>"), "format": Obj(None, label=f"<fmt:{nm}>"), "size": Obj(None, label=f"<size:{nm}>")}, label=f"<new:{nm}>")
+                        if fmk is not None and nm == "A":
+                            saved_ = dict(it.opts)
+                            it.opts["instantiate"] = lambda ci_: True
+                            it.opts["inline"] = lambda fi_, node_: True
+                            try:
+                                nv = fmk(it)
+                            finally:
+                                it.opts.clear()
+                                it.opts.update(saved_)
                         it.run_function(Fn(e.cls.find_setter("value"), e), [nv], {})
                 del it.events[:]
                 it.els = els
@@ -129,7 +143,7 @@ def rule_submit(ctx):
             paths = explore(p, run, client_opts(p))
             ctx.paths_enumerated += len(paths)
             inst = f"{f.short}[{kind}Vector]"
-            row = f"pending A={pending[0]} B={pending[1]}"
+            row = f"pending A={pending[0] if flabel is None else flabel} B={pending[1]}"
             for pa in paths:
                 if pa.outcome != "return":
                     ctx.violated("C06.SUBMIT", inst, f"submit raises for [{row}]: {show(pa.value) if pa.value is not None else ''}", fi=f, text=f"raises:{kind}", witness=row)
@@ -156,7 +170,9 @@ def rule_submit(ctx):
                             names.append(show(pk.get("name", Const(None))).strip("'"))
                             pv = pk.get("value")
                             nm = names[-1]
-                            if pv is None or not mentions(pv, lambda t: isinstance(t, Obj) and t.label in (f"<new:{nm}>", f"<b64:{nm}>")):
+                            if flabel is not None and nm == "A":
+                                pass  # a constant of the domain: that the part exists is what is decided here
+                            elif pv is None or not mentions(pv, lambda t: isinstance(t, Obj) and t.label in (f"<new:{nm}>", f"<b64:{nm}>")):
                                 okparts = False
                         else:
                             names.append("?")
@@ -168,7 +184,7 @@ def rule_submit(ctx):
                     ctx.violated("C06.SUBMIT", inst, f"pending values of {left} are not cleared by submit (they would be sent again)", fi=f, text="not-cleared", witness=row)
     before = len([r for r in ctx.results if r.rule == "C06.SUBMIT" and r.verdict == "VIOLATED"])
     if not before:
-        ctx.holds("C06.SUBMIT", f.short, f"{n} cases (4 kinds x pending subsets): one message, own address, exactly the pending parts, pending cleared", fi=f)
+        ctx.holds("C06.SUBMIT", f.short, f"{n} cases (4 kinds x pending subsets, opaque and smallest-of-domain values 0 / 0.0 / '' / empty BLOB): one message, own address, exactly the pending parts, pending cleared", fi=f)
 
 
 def rule_ctor(ctx):
